@@ -136,6 +136,17 @@ def cloud(rng, kind, d, n):
         return np.clip(v * (0.75 + 0.1 * rng.random(n))[:, None], 0.0005, 0.9995)
     if kind == 'two':
         return np.vstack([blob(0.25, 0.03, n // 2), blob(0.75, 0.03, n - n // 2)])
+    if kind == 'spike':       # a broad disc (with its rim populated) and a tiny dense cluster at its rim
+        m = n // 2
+        phi = np.linspace(0, 2 * np.pi, 60, endpoint=False)
+        rim = 0.3 * np.vstack([np.cos(phi), np.sin(phi)]).T
+        r, t = 0.3 * np.sqrt(rng.random(m - 60)), rng.random(m - 60) * 2 * np.pi
+        broad = np.vstack([rim, np.vstack([r * np.cos(t), r * np.sin(t)]).T])
+        r, t = 0.004 * np.sqrt(rng.random(n - m)), rng.random(n - m) * 2 * np.pi
+        spike = np.vstack([r * np.cos(t), r * np.sin(t)]).T + np.array([0.318, 0.0])   # just outside the rim: inside the enlarged disc
+        p = np.full((n, d), 0.5) + rng.normal(0, 0.01, (n, d))
+        p[:, :2] = np.vstack([broad, spike]) + np.array([0.45, 0.5])
+        return np.clip(p, 0.0005, 0.9995)
     if kind == 'wrapped':
         p = blob(0.5, 0.06, n)
         p[:, 0] = rng.normal(0.0, 0.04, n) % 1.0
